@@ -28,6 +28,64 @@ NumArg(v)  == NumLeft(v)
 
 Arg(args, i, dflt) == IF Len(args) >= i THEN args[i] ELSE dflt
 
+\* ---- decimal numbers: mantissa / 10^scale, exact (floats written with a few digits) ------------
+\* A float operand makes the arithmetic filters compute in exact decimal arithmetic
+\* (filters/math.py goes through decimal.Decimal(str(x))) and return a float.
+Dec(m, e) == [t |-> "dec", dm |-> m, de |-> e]
+RECURSIVE Pow10(_)
+Pow10(k) == IF k <= 0 THEN 1 ELSE 10 * Pow10(k - 1)
+RECURSIVE NormDec(_)
+NormDec(d) == IF d.de > 0 /\ d.dm % 10 = 0 THEN NormDec(Dec(d.dm \div 10, d.de - 1)) ELSE d
+MaxE(a, b) == IF a.de >= b.de THEN a.de ELSE b.de
+UpScale(a, e) == a.dm * Pow10(e - a.de)                     \* mantissa at scale e >= a.de
+DPlus(a, b) == NormDec(Dec(UpScale(a, MaxE(a, b)) + UpScale(b, MaxE(a, b)), MaxE(a, b)))
+DMinus(a, b) == NormDec(Dec(UpScale(a, MaxE(a, b)) - UpScale(b, MaxE(a, b)), MaxE(a, b)))
+DTimes(a, b) == NormDec(Dec(a.dm * b.dm, a.de + b.de))
+DLt(a, b) == UpScale(a, MaxE(a, b)) < UpScale(b, MaxE(a, b))
+DEq(a, b) == UpScale(a, MaxE(a, b)) = UpScale(b, MaxE(a, b))
+DIsZero(a) == a.dm = 0
+DFloor(a) == a.dm \div Pow10(a.de)                      \* TLA+ \div floors
+DCeil(a) == -((-a.dm) \div Pow10(a.de))
+\* a / b as an exact decimal with at most 4 fractional digits, if it has one
+DivScale == 4
+\* (TLC's % and \div want a positive divisor: the sign of b is moved to a)
+QNum(a, b) == LET e == MaxE(a, b) IN (IF UpScale(b, e) < 0 THEN -UpScale(a, e) ELSE UpScale(a, e)) * Pow10(DivScale)
+QDen(a, b) == LET e == MaxE(a, b) IN IF UpScale(b, e) < 0 THEN -UpScale(b, e) ELSE UpScale(b, e)
+DQuotExact(a, b) == QNum(a, b) % QDen(a, b) = 0
+DQuot(a, b) == NormDec(Dec(QNum(a, b) \div QDen(a, b), DivScale))
+\* floored modulo, as for integers: a - b * floor(a / b)
+DMod(a, b) == LET e == MaxE(a, b) IN NormDec(Dec(UpScale(a, e) % UpScale(b, e), e))
+\* rounding to k digits, ties excluded by the caller
+DRoundable(a, k) == a.de <= k \/ (a.dm % Pow10(a.de - k)) * 2 # Pow10(a.de - k)
+DRound(a, k) == IF a.de <= k THEN a
+                ELSE LET cut == Pow10(a.de - k)
+                         lo == a.dm \div cut IN
+                     NormDec(Dec(IF (a.dm % cut) * 2 > cut THEN lo + 1 ELSE lo, k))
+
+IsDecStr(s) == LET t == IF s # "" /\ Ch(s, 1) \in {"-", "+"} THEN SubSeq(s, 2, Len(s)) ELSE s
+                   i == Find(t, ".") IN
+               i > 1 /\ i < Len(t) /\ IsDigits(SubSeq(t, 1, i - 1)) /\ IsDigits(SubSeq(t, i + 1, Len(t)))
+DecOfStr(s) == LET neg == Ch(s, 1) = "-"
+                   t == IF Ch(s, 1) \in {"-", "+"} THEN SubSeq(s, 2, Len(s)) ELSE s
+                   i == Find(t, ".")
+                   m == DigitsVal(SubSeq(t, 1, i - 1) \o SubSeq(t, i + 1, Len(t))) IN
+               Dec(IF neg THEN -m ELSE m, Len(t) - i)
+Floaty(v) == v.t = "dec" \/ (v.t = "str" /\ IsDecStr(Strip(v.v)))
+DecOf(v) == CASE v.t = "dec" -> v
+              [] v.t = "int" -> Dec(v.n, 0)
+              [] v.t = "str" /\ IsIntStr(Strip(v.v)) -> Dec(IntOfStr(Strip(v.v)), 0)
+              [] v.t = "str" /\ IsDecStr(Strip(v.v)) -> DecOfStr(Strip(v.v))
+              [] OTHER -> Dec(0, 0)
+\* the text of a float (Python repr for these magnitudes): at least one fractional digit
+DecText(d0) ==
+  LET d == NormDec(d0)
+      neg == d.dm < 0
+      digits == ToString(IF neg THEN -d.dm ELSE d.dm)
+      padded == IF Len(digits) <= d.de THEN SubSeq("0000000000", 1, d.de - Len(digits) + 1) \o digits ELSE digits
+      ip == SubSeq(padded, 1, Len(padded) - d.de)
+      fp == SubSeq(padded, Len(padded) - d.de + 1, Len(padded))
+  IN (IF neg THEN "-" ELSE "") \o ip \o "." \o (IF fp = "" THEN "0" ELSE fp)
+
 \* ---- sequence coercion of the left operand (sequence_filter) --------------
 RECURSIVE Flatten(_, _)
 Flatten(s, level) ==
@@ -215,13 +273,51 @@ Known == {"slice", "replace_last", "remove_last", "truncatewords", "sort_natural
           "size", "escape", "replace", "replace_first", "remove", "remove_first", "split",
           "first", "last", "join", "default", "truncate", "reverse", "concat", "compact",
           "uniq", "sort", "map", "where", "sum", "plus", "minus", "times", "divided_by",
-          "modulo", "abs", "at_least", "at_most", "strip_newlines", "newline_to_br", "safe"}
+          "modulo", "abs", "at_least", "at_most", "strip_newlines", "newline_to_br", "safe", "round", "ceil", "floor"}
 
 \* Apply a filter.  `args` are evaluated positional arguments; cfg carries autoescape.
-MathFilters == {"plus", "minus", "times", "divided_by", "modulo", "abs", "at_least", "at_most"}
+MathFilters == {"plus", "minus", "times", "divided_by", "modulo", "abs", "at_least", "at_most", "round", "ceil", "floor"}
+
+\* the arithmetic filters when an operand is a float (or a string that reads as one)
+DecApply(name, left, args) ==
+  LET a == DecOf(left)
+      a1 == Arg(args, 1, [t |-> "undef"])
+      b == DecOf(a1)
+  IN
+  CASE name = "plus"  -> IF Len(args) # 1 THEN Err("LiquidTypeError") ELSE DPlus(a, b)
+    [] name = "minus" -> IF Len(args) # 1 THEN Err("LiquidTypeError") ELSE DMinus(a, b)
+    [] name = "times" -> IF Len(args) # 1 THEN Err("LiquidTypeError") ELSE DTimes(a, b)
+    [] name = "divided_by" ->
+         IF Len(args) # 1 THEN Err("LiquidTypeError")
+         ELSE IF DIsZero(b) THEN Err("LiquidTypeError")
+         \* filter_reference.md: "If you divide by a float, the result will be a float"; a float divided
+         \* by an integer is not fixed by the documentation
+         ELSE IF ~Floaty(a1) THEN Err("UNSPEC")
+         ELSE IF ~DQuotExact(a, b) THEN Err("UNSPEC") ELSE DQuot(a, b)
+    [] name = "modulo" ->
+         IF Len(args) # 1 THEN Err("LiquidTypeError")
+         ELSE IF DIsZero(b) THEN Err("LiquidTypeError")
+         ELSE IF b.dm < 0 THEN Err("UNSPEC") ELSE DMod(a, b)
+    [] name = "abs" -> IF Len(args) # 0 THEN Err("LiquidTypeError") ELSE NormDec(Dec(IF a.dm < 0 THEN -a.dm ELSE a.dm, a.de))
+    \* min / max hand back one of their operands as it is (an integer stays an integer)
+    [] name = "at_least" -> IF Len(args) # 1 THEN Err("LiquidTypeError")
+                            ELSE IF DLt(a, b) THEN (IF Floaty(a1) THEN NormDec(b) ELSE IntV(b.dm)) ELSE (IF Floaty(left) THEN NormDec(a) ELSE IntV(a.dm))
+    [] name = "at_most"  -> IF Len(args) # 1 THEN Err("LiquidTypeError")
+                            ELSE IF DLt(b, a) THEN (IF Floaty(a1) THEN NormDec(b) ELSE IntV(b.dm)) ELSE (IF Floaty(left) THEN NormDec(a) ELSE IntV(a.dm))
+    [] name = "ceil"  -> IF Len(args) # 0 THEN Err("LiquidTypeError") ELSE IntV(DCeil(a))
+    [] name = "floor" -> IF Len(args) # 0 THEN Err("LiquidTypeError") ELSE IntV(DFloor(a))
+    [] name = "round" ->
+         IF Len(args) > 1 THEN Err("LiquidTypeError")
+         ELSE LET k == IF Len(args) = 0 THEN 0 ELSE (IF a1.t = "int" THEN a1.n ELSE -99) IN
+              IF k = -99 THEN Err("UNSPEC")
+              ELSE IF k < 0 THEN IntV(0)
+              ELSE IF ~DRoundable(a, k) THEN Err("UNSPEC")            \* a tie: the documentation names no rule
+              ELSE IF k = 0 THEN IntV(DRound(a, 0).dm) ELSE DRound(a, k)
+    [] OTHER -> Err("UNSPEC")
 Apply(name, left, args, cfg) ==
   \* booleans as numbers (Python's True == 1) are UNSPECIFIED
   IF name \in MathFilters /\ (left.t = "bool" \/ \E i \in DOMAIN args : args[i].t = "bool") THEN Err("UNSPEC") ELSE
+  IF name \in MathFilters /\ (Floaty(left) \/ (name # "round" /\ \E i \in DOMAIN args : Floaty(args[i]))) THEN DecApply(name, left, args) ELSE
   LET ae == cfg.autoescape
       ls == ToStr(left)
       lsafe == ae /\ IsSafe(left)
@@ -352,6 +448,10 @@ Apply(name, left, args, cfg) ==
          ELSE IntV(NumLeft(left) % NumArg(a1))
     [] name = "abs" -> IF Len(args) # 0 THEN Err("LiquidTypeError")
                        ELSE IntV(IF NumLeft(left) < 0 THEN -NumLeft(left) ELSE NumLeft(left))
+    [] name \in {"ceil", "floor"} -> IF Len(args) # 0 THEN Err("LiquidTypeError") ELSE IntV(NumLeft(left))
+    [] name = "round" -> IF Len(args) > 1 THEN Err("LiquidTypeError")
+                         ELSE IF Len(args) = 1 /\ a1.t # "int" THEN Err("UNSPEC")
+                         ELSE IF Len(args) = 1 /\ a1.n < 0 THEN IntV(0) ELSE IntV(NumLeft(left))
     [] name = "at_least" -> IF Len(args) # 1 THEN Err("LiquidTypeError")
                             ELSE IntV(IF NumLeft(left) < NumArg(a1) THEN NumArg(a1) ELSE NumLeft(left))
     [] name = "at_most"  -> IF Len(args) # 1 THEN Err("LiquidTypeError")
